@@ -68,6 +68,11 @@ func c03Check(res *vh.Result) bsVisit {
 					cached := "cached-clock-fresh"
 					if r.Now-r.CachedNow >= 30*sec {
 						cached = "cached-clock-stale>=30s"
+						// the recorded finding needs maintenance to be STALLED for >= 30 s; a cached clock that is that old
+						// although tick periods went by normally is something else
+						if w.stalledIn(r.CachedNow, r.Now) < 30*sec {
+							cached = "cached-clock-stale>=30s-although-ticks-were-due"
+						}
 					}
 					res.Violate("served-after-deadline", fmt.Sprintf("%s,%s", r.Op.Kind, cached),
 						fmt.Sprintf("history %v: %s at t=%d returned value %d of key %d whose deadline was %d (%d ns late); cached clock was %d", hist, r.Op.Kind, r.Now, h[1], h[0], d, late, r.CachedNow),
@@ -91,6 +96,9 @@ func c03Cfgs() []*bsCfg {
 			Ops: []bsOp{T(1, 1), T(1, sec), T(1, 30*sec-1), T(1, 30*sec), T(1, 30*sec+1), G(1), R}},
 		{Name: "stall", MaxSize: 4, ChanSize: 4, BufSize: 2, NClients: 1, OpsPer: 4, Depth: 9, Ticks: 2, TickNs: sec, Advs: []int64{29 * sec, 31 * sec, 61 * sec}, DlAdvs: edge, MaxAdv: 2,
 			Ops: []bsOp{T(1, 61*sec), T(1, 2*3600*sec), T(1, 30*sec), G(1), R}},
+		// an idle cache: 40 tick periods go by on an empty wheel, then a short TTL is set and read just past its deadline
+		{Name: "idle", MaxSize: 4, ChanSize: 4, BufSize: 2, NClients: 1, OpsPer: 3, Depth: 6, Ticks: 1, TickNs: sec, Burst: 40, DlAdvs: edge, MaxAdv: 1,
+			Ops: []bsOp{T(1, sec), T(1, 500*1e6), G(1), R}},
 		{Name: "rearm", MaxSize: 4, ChanSize: 4, BufSize: 2, NClients: 2, OpsPer: 3, Depth: 9, Ticks: 2, TickNs: 1100 * 1e6, DlAdvs: edge, MaxAdv: 2,
 			Ops: []bsOp{T(1, sec), T(1, 3*sec), S(1), G(1)}},
 		{Name: "huge", MaxSize: 4, ChanSize: 4, BufSize: 2, NClients: 1, OpsPer: 3, Depth: 7, Ticks: 1, TickNs: sec, Advs: []int64{61 * sec}, MaxAdv: 1,
